@@ -106,6 +106,10 @@ XmlNamespaceMap traverseTreeForUndefinedNamespaces(const XmlNodePtr &node)
         for (const auto &entry : usedNamespaces) {
             usedNamespaceMap.emplace(std::get<2>(entry), std::get<3>(entry));
         }
+        // A prefixed element uses a namespace as well.
+        if (tempNode->isElement() && !tempNode->namespacePrefix().empty()) {
+            usedNamespaceMap.emplace(tempNode->namespacePrefix(), tempNode->namespaceUri());
+        }
 
         auto missingNamespaces = determineMissingNamespaces(usedNamespaceMap, definedNamespaces);
 
